@@ -492,7 +492,8 @@ class FunctionNode(ASTNode):
         return f'column({self._build_reference})'
 
     def func_offset(self):
-        to_emit = self.comma_join_emit().split(')', 1)[1]
+        # (the reference may hold a ')' itself: a sheet name, a nested call)
+        to_emit = ''.join(f', {c.emit}' for c in self.children[1:])
         return f'offset({self._build_reference}{to_emit})'
 
     def func_indirect(self):
